@@ -37,6 +37,11 @@ def worker_init():
 
 def _pools(tier):
     est, gt = S.pools(_SEED[0])
+    # C19's own variations of the shared pools: the unknown-labelled estimate sits within the car threshold of gt0 (a TP under
+    # ALLOW_UNKNOWN whose estimate and ground-truth labels differ), and the pair est1 / gt1 has headings on the two sides of +-pi
+    est, gt = [dict(s_) for s_ in est], [dict(s_) for s_ in gt]
+    est[5].update(x=gt[0]["x"] + 0.2, y=gt[0]["y"] + 0.1)
+    est[1]["yaw"], gt[1]["yaw"] = 3.05, -3.08
     if tier == "quick":
         return [est[i] for i in (0, 1, 3, 4, 5, 9)], [gt[j] for j in (0, 1, 3, 4, 7)]
     return est, gt
@@ -203,6 +208,33 @@ def check_case(case, acc):
                 continue
             if gv_ != wv:
                 bad("status-num:" + st, "get_status_num(%r%s) = %d, the selected frames hold %d" % (st, "" if sel_scene is None else ", scene=%d" % sel_scene, gv_, wv))
+    # the same per label: TP / FP are counted on the estimates' labels, FN / TN on the ground truths' labels
+    for lab_name in ("car", "pedestrian", "unknown"):
+        wlab = dict(TP=sum(1 for p_ in P for r in p_.tp_object_results if r.estimated_object.semantic_label.name == lab_name),
+                    FP=sum(1 for p_ in P for r in p_.fp_object_results if r.estimated_object.semantic_label.name == lab_name),
+                    FN=sum(1 for p_ in P for o in p_.fn_objects if o.semantic_label.name == lab_name),
+                    TN=sum(1 for p_ in P for o in p_.tn_objects if o.semantic_label.name == lab_name))
+        for st, wv in wlab.items():
+            acc.exec()
+            try:
+                gv_ = an.get_status_num(st, label=lab_name)
+            except Exception as ex:  # noqa
+                bad("status-num:raises", "get_status_num(%r, label=%r) raised %r" % (st, lab_name, ex))
+                continue
+            if gv_ != wv:
+                bad("status-num:label:" + st, "get_status_num(%r, label=%r) = %d, the frames hold %d such %s" % (st, lab_name, gv_, wv, "estimates" if st in ("TP", "FP") else "ground truths"))
+    # per-pair yaw errors as the analyzer hands them out by default (no NaN removal): every value lies in [-pi, pi]
+    if len(an.df):
+        acc.exec()
+        try:
+            yerr = np.asarray(an.calculate_error("yaw"), dtype=float).ravel()
+        except Exception as ex:  # noqa
+            yerr = None
+            bad("yaw-error:raises", "calculate_error('yaw') raised %r" % (ex,))
+        if yerr is not None:
+            fin = yerr[~np.isnan(yerr)]
+            if len(fin) and (fin.max() > math.pi + 1e-9 or fin.min() < -math.pi - 1e-9):
+                bad("yaw-error:range", "calculate_error('yaw') returns %s: values outside [-pi, pi]" % np.round(fin, 4).tolist())
     n_est = sum(len(fr.object_results) for _, fr, *_ in all_frames)
     if an.num_estimation != n_est:
         bad("count:estimation", "table holds %d estimates, %d were evaluated" % (an.num_estimation, n_est))
@@ -391,6 +423,14 @@ def check_case(case, acc):
             for g in fr.frame_ground_truth.objects:
                 st = [i for i in infos if i.uuid == g.uuid]
                 cnt = sum(i.total_frame_nums.count(fnum) for i in st)
+                # the statuses recorded for this ground truth in this frame are exactly those of the frame's pass/fail lists
+                if len(st) == 1:
+                    want_st = sorted((["TP"] * sum(1 for r in p.tp_object_results if r.ground_truth_object is g)) + (["FP"] * sum(1 for r in p.fp_object_results if r.ground_truth_object is g))
+                                     + (["FN"] * sum(1 for o in p.fn_objects if o is g)) + (["TN"] * sum(1 for o in p.tn_objects if o is g)))
+                    got_st = sorted((["TP"] * st[0].tp_frame_nums.count(fnum)) + (["FP"] * st[0].fp_frame_nums.count(fnum)) + (["FN"] * st[0].fn_frame_nums.count(fnum))
+                                    + (["TN"] * st[0].tn_frame_nums.count(fnum)))
+                    if got_st != want_st:
+                        bad("status:tally-mismatch", "get_object_status records ground truth %s as %s in frame %d, the frame's pass/fail lists hold it as %s" % (g.uuid, got_st, fnum, want_st))
                 if len(st) != 1 or cnt != 1:
                     if len(st) == 1 and cnt == 2 and any(g is d for d in dset) and st[0].fp_frame_nums.count(fnum) == 1 and st[0].fn_frame_nums.count(fnum) == 1:
                         bad("status:gt-in-fp-pair-and-fn", "get_object_status records ground truth %s as FP and FN in frame %d (matched by a failing estimate)" % (g.uuid, fnum))
